@@ -963,6 +963,10 @@ def check_C08(ctx):
             cls = _c08_class(hk, [seg(x) for x in extra], [seg(x) for x in lost], a, b)
             if cls.startswith("sites_differ") and extra and not lost and _in_chain("\n".join(src), [x[1] for x in extra if x]):
                 cls = "crosstalk:chain_eager"
+            if "cannot access free variable" in json.dumps([rs.get("inst"), rc.get("inst")], default=str):
+                # a hooked read of a not-yet-bound function local fails with NameError instead of UnboundLocalError
+                # (KNOWN_FINDINGS unbound_local_thunk): whether the read is hooked depends on the selection
+                cls = "crosstalk:unbound_local_thunk"
             ctx.violation("C08:%s" % cls, "hook %s receives a different sequence when instrumented within %s (%d hooks) than alone: first difference at %d: %r vs %r; extra sites %r lost sites %r" % (
                 hk, label, len(c.get("select") or []), j, a[j:j + 1], b[j:j + 1], [seg(x)[:30] for x in extra][:3], [seg(x)[:30] for x in lost][:3]), {"solo": solo, "full": c})
 
